@@ -58,6 +58,10 @@ def type_narrow(sid: Sid) -> Sid:
         sid with applied configured queries
     """
 
+    if sid.string.count("?"):
+        # The Sid has an un-applied query: it is not searchable and will be dropped.
+        # Narrowing would re-apply that query, and the narrowing values would override it.
+        return sid
     query = basetyped_search_narrowing.get(sid.basetype, "")
     if query:
         sid = sid.get_with(query=query)
